@@ -30,10 +30,11 @@ const (
 	kInfix
 	kIterBreak
 	kHandlerLookup
+	kIgnoreCloneStash
 	nKinds
 )
 
-var kindNames = [...]string{"direct(2 params)", "ignored-slash", "redirect", "404", "405", "OPTIONS", "Lookup+Close", "Lookup+Clone", "handler-CloneWith", "handler-Clone-stash", "hostname-direct", "infix-catch-all", "iterators-left-early", "handler-Lookup-inside"}
+var kindNames = [...]string{"direct(2 params)", "ignored-slash", "redirect", "404", "405", "OPTIONS", "Lookup+Close", "Lookup+Clone", "handler-CloneWith", "handler-Clone-stash", "hostname-direct", "infix-catch-all", "iterators-left-early", "handler-Lookup-inside", "ignored-slash-Clone-stash"}
 
 // world is one router plus the bookkeeping of one execution.
 type world struct {
@@ -238,6 +239,13 @@ func newWorld(withHost bool) *world {
 		w.stashClone(c, c.Clone())
 		w.respond(c)
 	}))
+	// a slash-adjusted match whose handler keeps a Clone
+	must(f.Handle("GET", "/ic/{a}/", func(c fox.Context) {
+		w.observe(c, "/ic/{a}/", fox.RouteHandler, []string{"a"}, true)
+		c.SetHeader("X-Early", w.cur.tok)
+		w.stashClone(c, c.Clone())
+		w.respond(c)
+	}, fox.WithIgnoreTrailingSlash(true)))
 	// the handler looks another request up while its own context is live, then re-reads its own
 	must(f.Handle("GET", "/hl/{a}", func(c fox.Context) {
 		w.observe(c, "/hl/{a}", fox.RouteHandler, []string{"a"}, true)
@@ -313,6 +321,8 @@ func (w *world) issue(kind int) {
 		w.f.ServeHTTP(rw, w.req("GET", "", "/in/"+tok+"a/end/"+tok+"b"))
 	case kHandlerLookup:
 		w.f.ServeHTTP(rw, w.req("GET", "", "/hl/"+tok+"a"))
+	case kIgnoreCloneStash:
+		w.f.ServeHTTP(rw, w.req("GET", "", "/ic/"+tok+"a"))
 	case kIterBreak:
 		// every iterator consumed completely once and left at its first element once
 		it := w.f.Iter()
@@ -592,7 +602,7 @@ func init() {
 	mc.Register(&mc.Check{
 		ID:    "C12",
 		Level: "model_checking",
-		Rule: "every sequence up to a length of requests from a 14-kind alphabet (direct, ignored slash, redirect, 404, 405, OPTIONS, manual Lookup(+Clone), CloneWith, Clone, hostname, infix catch-all, every iterator consumed fully and left at its first element, a handler doing a Lookup for another request), with an optional tree replacement before each request, x EVERY answer of the context pool at every Pool.Get (any of the pooled contexts or a fresh one: data choice points of the controlled scheduler); every request carries a unique token in every observable field and every Context getter is checked inside every handler; stashed clones are re-read after every later request; " +
+		Rule: "every sequence up to a length of requests from a 15-kind alphabet (direct, ignored slash, redirect, 404, 405, OPTIONS, manual Lookup(+Clone), CloneWith, Clone, hostname, infix catch-all, every iterator consumed fully and left at its first element, a handler doing a Lookup for another request, a slash-adjusted match whose handler keeps a Clone), with an optional tree replacement before each request, x EVERY answer of the context pool at every Pool.Get (any of the pooled contexts or a fresh one: data choice points of the controlled scheduler); every request carries a unique token in every observable field and every Context getter is checked inside every handler; stashed clones are re-read after every later request; " +
 			"plus two-thread schedules; distinct_nontrivial = distinct (sequence, outcome) classes",
 		Assumptions: []string{
 			"sync.Pool may return any previously Put object or a fresh one: the shim makes that choice explicit and the explorer enumerates it",
@@ -605,11 +615,11 @@ func init() {
 				if c.Quick() {
 					seqs = sequences(2, kinds, true)
 					// length 3 over the kinds that leave most state behind
-					seqs = dedupSeqs(append(seqs, sequences(3, []int{kIgnoreSlash, kNotFound, kLookupClone, kCloneStash, kDirect, kIterBreak, kHandlerLookup}, false)...))
+					seqs = dedupSeqs(append(seqs, sequences(3, []int{kIgnoreSlash, kNotFound, kLookupClone, kCloneStash, kDirect, kHandlerLookup, kIgnoreCloneStash}, false)...))
 				} else {
 					seqs = sequences(maxLen, kinds, true)
 				}
-				r.Bounds["sequences"] = fmt.Sprintf("%d sequences (14 kinds; quick: all of length<=2 with tree replacement + length 3 over 7 kinds; thorough: all of length<=3 with tree replacement), unbounded exploration of pool answers", len(seqs))
+				r.Bounds["sequences"] = fmt.Sprintf("%d sequences (15 kinds; quick: all of length<=2 with tree replacement + length 3 over 7 kinds; thorough: all of length<=3 with tree replacement), unbounded exploration of pool answers", len(seqs))
 				for i, s := range seqs {
 					if !c.Mine(i) {
 						continue
